@@ -24,7 +24,7 @@ EXHAUSTIVE = False
 RULE = (
     "generated modules (failing line first / middle / last in the file, inside nested and tab-indented functions, after "
     "multi-line strings, bracketed and backslash continuations, with comments, non-ASCII, markup-like text, very long lines; "
-    "empty file; file deleted after import; module under a path that spells style markup; Latin-1 encoded modules with a coding cookie; callers whose call line opens a multi-line statement with markup-like arguments; code objects naming an existing non-Python file; exec-compiled source-less code under 10 file names (markup-like: '</error>', '<b>', 'a</info>b', ...), as the failing or as a middle frame; failure while importing) x statements {raise "
+    "empty file; file deleted after import; module under a path that spells style markup; modules stored in Latin-1, cp1251, koi8-r or iso-8859-7 with their coding cookie; callers whose call line opens a multi-line statement with markup-like arguments; code objects naming an existing non-Python file; exec-compiled source-less code under 10 file names (markup-like: '</error>', '<b>', 'a</info>b', ...), as the failing or as a middle frame; failure while importing) x statements {raise "
     "ValueError/KeyError/custom, 1/0, assert, raise ... from} x messages {plain, multi-line, non-ASCII, balanced / opening / "
     "closing / crossed style tags, escaped tag, 5 kB, empty} x exception object {as raised; every third case re-raised as one of 19 unusual types: providing a solution (5 title/description/link texts, rendered with a solution-provider repository), being a solution, KeyboardInterrupt / SystemExit subclasses, ExceptionGroup, OSError with file name, UnicodeDecodeError, SyntaxError, class names made with type() (markup-like, non-ASCII), overridden __str__, with notes, without / with two arguments} x recursion depth 1-60 (direct and mutual) x verbosity x UTF-8 "
     "on/off x simple/full x ANSI/plain x ignore pattern. Clauses: render never raises; class name and message present "
@@ -124,17 +124,23 @@ def gen_module(rng):
             entry = "outer"
     fail_line = next(i for i, l in enumerate(lines) if l.endswith("#FAIL")) + 1
     latin1 = False
+    encoding = None
     if rng.random() < 0.3:
         # a file whose non-ASCII characters all fit one byte in Latin-1 (decoding guesses must not turn them into something else)
         lines = ["".join(c if ord(c) < 256 else "\u00e9" for c in l) for l in lines]
         if rng.random() < 0.3:
             # ... stored in that encoding, with the coding cookie as the first line
             latin1 = True
-            lines.insert(0, "# -*- coding: latin-1 -*-")
+            encoding = rng.choice(["latin-1", "latin-1", "cp1251", "koi8-r", "iso-8859-7"])
+            if encoding != "latin-1":
+                # another one-byte encoding: its letters are not Latin-1 letters
+                letter = {"cp1251": "\u0436", "koi8-r": "\u044f", "iso-8859-7": "\u03bb"}[encoding]
+                lines = ["".join(c if ord(c) < 128 else letter for c in l) for l in lines]
+            lines.insert(0, "# -*- coding: %s -*-" % encoding)
             fail_line += 1
-            lines.append("# caf\u00e9")
+            lines.append("# caf\u00e9" if encoding == "latin-1" else "# " + letter * 4)
     text = "\n".join(lines) + ("" if (pos == "last" or rng.random() < 0.2) else "\n")
-    return dict(source=text, fail_line=fail_line, entry=entry, shape=(pos, stmt_kind, len(lines)), stmt=stmt_kind, pos=pos, latin1=latin1)
+    return dict(source=text, fail_line=fail_line, entry=entry, shape=(pos, stmt_kind, len(lines)), stmt=stmt_kind, pos=pos, latin1=latin1, encoding=encoding)
 
 
 def single_token_lines(source):
@@ -175,13 +181,13 @@ class Env(object):
         self.relay = importlib.util.module_from_spec(spec)
         spec.loader.exec_module(self.relay)
 
-    def write_module(self, source, odd_path=False, latin1=False):
+    def write_module(self, source, odd_path=False, latin1=False, encoding="latin-1"):
         self.counter += 1
         path = os.path.join(self.workdir, "m%06d_%d.py" % (self.counter, os.getpid()))
         if latin1:
             # a source file in Latin-1 with its coding cookie (legal Python; not decodable as UTF-8)
             with open(path, "wb") as f:
-                f.write(source.encode("latin-1"))
+                f.write(source.encode(encoding))
             return path
         if odd_path:
             # a directory and a file name that together spell style markup in the path: .../a</info>b_<n>.py, .../x<b>/m.py
@@ -195,7 +201,7 @@ class Env(object):
 
 def raise_from(env, mod_case, message, depth, mode, rng):
     """Runs the generated module so that it fails; returns (exception, path, source_available)."""
-    path = env.write_module(mod_case["source"], odd_path=(mode == "odd-path"), latin1=bool(mod_case.get("latin1")))
+    path = env.write_module(mod_case["source"], odd_path=(mode == "odd-path"), latin1=bool(mod_case.get("latin1")), encoding=mod_case.get("encoding") or "latin-1")
     name = "c20_m%d" % env.counter
     spec = importlib.util.spec_from_file_location(name, path)
     mod = importlib.util.module_from_spec(spec)
